@@ -53,6 +53,9 @@ def _refcheck(ctx, rel, dotted, refname, key, ints=None):
     return sym.against_reference(ctx, fi, _ref(), refname, key, ints or INTS)
 
 
+_UNKNOWN = []
+
+
 def _pv(e, params, carried, ok_calls, seen=frozenset(), depth=0):
     """is the (substituted) expression a point that went through the on-curve-checking constructor, a parameter or infinity?"""
     if e is None or depth > 14:
@@ -65,7 +68,10 @@ def _pv(e, params, carried, ok_calls, seen=frozenset(), depth=0):
             return e.id in ("infinity",)
         return all(_pv(v, params, carried, ok_calls, seen | {e.id}, depth + 1) for v in vals)
     if isinstance(e, ast.Attribute):
-        return norm(e) in ("self._infinity", "self._minus_blinding_factor_g")
+        if norm(e) in ("self._infinity", "self._minus_blinding_factor_g"):
+            return True
+        _UNKNOWN.append(norm(e)[:60])
+        return False
     if isinstance(e, ast.Call):
         fn = df.dotted(e.func) or ""
         if fn in ok_calls:
@@ -74,6 +80,7 @@ def _pv(e, params, carried, ok_calls, seen=frozenset(), depth=0):
             return _pv(e.args[1], params, carried, ok_calls, seen, depth + 1)
         if fn in ("list", "tuple") and len(e.args) == 1:
             return _pv(e.args[0], params, carried, ok_calls, seen, depth + 1)
+        _UNKNOWN.append(norm(e)[:60])        # the result of something this rule does not know (a memo lookup, a new helper)
         return False
     if isinstance(e, ast.BinOp) and isinstance(e.op, (ast.Add, ast.Sub, ast.Mult)):
         return _pv(e.left, params, carried, ok_calls, seen, depth + 1) or _pv(e.right, params, carried, ok_calls, seen, depth + 1)
@@ -132,7 +139,13 @@ def c02_1(ctx):
             if nat is not None and nat[0].relpath == SECP and isinstance(e.value, ast.Constant) and e.value.value is False:
                 ctx.note("tabulated: secp256k1 multiply returns False after a failed pubkey_parse of an already validated Point (unreachable)")
                 continue
-            ctx.check(_pv(e.value, params, carried, ok_calls), "returns-checked-point:%s" % (name.split(".")[-2] + "." + name.split(".")[-1]), where,
+            del _UNKNOWN[:]
+            good = _pv(e.value, params, carried, ok_calls)
+            if not good and _UNKNOWN:
+                ctx.undecided("returns-checked-point:%s" % (name.split(".")[-2] + "." + name.split(".")[-1]), where, "%s returns `%s`, whose origin (`%s`) this rule does not know: neither shown to be a checked point nor built without the check"
+                              % (name, norm(e.value)[:70], _UNKNOWN[0]))
+                continue
+            ctx.check(good, "returns-checked-point:%s" % (name.split(".")[-2] + "." + name.split(".")[-1]), where,
                       "%s returns `%s`, which is neither a parameter, infinity, a Point constructor call (on-curve checked) nor the result of another group operation: results may lie off the curve"
                       % (name, norm(e.value)[:80]), what="%s:%s" % (name, norm(e.value)[:50]), sample={"function": name, "returns": norm(e.value)[:80]} if "add" in name else None)
 
